@@ -275,6 +275,10 @@ func showList(isNil bool, l []string) any {
 	return append([]string{}, l...)
 }
 
+// legitType: type names cannot contain ':', '#', '@' or whitespace (model validation forbids them), so the
+// RelationReference.Type component and the type part of an ObjectRelation object are restricted to such strings.
+func legitType(t string) bool { return !strings.ContainsAny(t, ":#@ \t\n\r") }
+
 // relation references (ReadUsersetTuplesFilter.AllowedUserTypeRestrictions)
 type refv struct {
 	typ  string
@@ -320,7 +324,17 @@ func refLists(thorough bool) []refList {
 			refList{l: []refv{{typ: "group" + encStr("x"), kind: 1, rel: "member"}}}, refList{l: []refv{{typ: "", kind: 1, rel: ""}}}, refList{l: []refv{{typ: "#"}}},
 			refList{l: []refv{{typ: "", kind: 2}}}, refList{l: []refv{{typ: ":*"}}}, refList{l: []refv{{typ: "group", kind: 2, cond: "c"}}})
 	}
-	return ls
+	var keep []refList
+	for _, l := range ls {
+		legit := true
+		for _, r := range l.l {
+			legit = legit && legitType(r.typ)
+		}
+		if legit {
+			keep = append(keep, l)
+		}
+	}
+	return keep
 }
 
 func refListComp(ls []refList) component {
@@ -376,7 +390,18 @@ func userFilters(thorough bool) []orList {
 		ls = append(ls, orList{l: []orv{{"a", "b#c"}}}, orList{l: []orv{{"a#b", "c"}}}, orList{l: []orv{{"group:1", "member"}, {"user:a", ""}}}, orList{l: []orv{{"user:a", ""}, {"group:1", "member"}}},
 			orList{l: []orv{{"group:1", "other"}}}, orList{l: []orv{{"\x04", ""}}}, orList{l: []orv{{"", "member"}}}, orList{l: []orv{{"#member", ""}}})
 	}
-	return ls
+	var keep []orList
+	for _, l := range ls {
+		legit := true
+		for _, e := range l.l {
+			typ, _, _ := strings.Cut(e.obj, ":")
+			legit = legit && legitType(typ)
+		}
+		if legit {
+			keep = append(keep, l)
+		}
+	}
+	return keep
 }
 
 func userFilterComp(ls []orList) component {
@@ -430,8 +455,9 @@ func idSetComp(ls []idSet) component {
 			v = storage.NewSortedSet(l.ins...)
 			fine = sortedSet(l.ins)
 		}
-		// nil (no restriction) and the empty set (intersection with nothing) are different filters: coarse == fine
-		c.M = append(c.M, member{V: v, Fine: fine, Coarse: fine, Flat: "values:" + sortedSet(l.ins), Tricky: len(l.ins) != 1 || l.ins[0] != "1", Show: showList(l.isNil, l.ins)})
+		// nil and the empty set are one answer-relevant class (the repository's own key test pins equal keys for them);
+		// non-empty sets stay distinct from both. They remain different fine classes (no equal key demanded by the harness).
+		c.M = append(c.M, member{V: v, Fine: fine, Coarse: sortedSet(l.ins), Flat: "values:" + sortedSet(l.ins), Tricky: len(l.ins) != 1 || l.ins[0] != "1", Show: showList(l.isNil, l.ins)})
 	}
 	return c
 }
